@@ -138,6 +138,13 @@ def mech_lengths(site):
         rv = site.stmt["rv"]
         if rv["from"] == "usize" and rv["to"] in ("i64", "u64", "isize", "i128", "u128") and _length_leaves(site.fn, rv["op"]):
             return "length cast (a len()/count() result is at most isize::MAX)"
+    if site.kind == "api:capacity" and site.call is not None and site.call.args and \
+            re.search(r"::(with_capacity|reserve|reserve_exact)$", short(site.call.name)):
+        arg = site.call.args[-1]
+        if arg["k"] == "const" and arg.get("int") is not None and arg["int"] <= 1 << 20:
+            return "constant capacity"
+        if arg["k"] in ("copy", "move") and _length_leaves(site.fn, arg):
+            return "capacity = number of elements of a collection already in memory (cannot exceed the allocator's limit by itself)"
     if site.kind == "overflow" and site.detail.startswith("Add usize,usize"):
         ops = site.extra["ops"]
         if all(_length_leaves(site.fn, o) for o in ops):
